@@ -546,6 +546,12 @@ func (hs *clientHandshakeStateGM) readSessionTicket() error {
 	}
 	hs.finishedHash.Write(sessionTicketMsg.marshal())
 
+	if len(sessionTicketMsg.ticket) == 0 {
+		// RFC 5077, section 3.3: the server issues no ticket after all.
+		// There is no session to store.
+		return nil
+	}
+
 	hs.session = &ClientSessionState{
 		sessionTicket:      sessionTicketMsg.ticket,
 		vers:               c.vers,
